@@ -118,13 +118,12 @@ def judge_history(check, ctx, case, cmds, outs, res, kinds, global_decls=False):
     return out_v
 
 
-def alias_feature(check, ctx, case, upto=None):
-    """True if two distinct occurrences (assertions, or named subterms) that were *on the assertion stack at the same time*
-    at some moment up to command index `upto` denote equivalent terms. OpenSMT identifies an assertion with its hash-consed
-    term; this feature attributes a violation to that root cause (it also strikes after one of the two was popped: popping
-    the duplicate takes the partition and name information of the shared term with it). Occurrences whose lifetimes are
-    disjoint do not count: a formula that was popped and is asserted again afterwards is alone on the stack, and the
-    unchanged tree handles that correctly."""
+def aliased_refs(check, ctx, case, upto=None):
+    """Reference texts of the occurrences (assertions, named subterms) that have an equivalent *other* occurrence whose lifetime
+    on the assertion stack overlapped with theirs, up to command index `upto`; plus the prelude used for the queries.
+    OpenSMT identifies an assertion with its hash-consed term: such twins share names and partition indices (and popping one of
+    them takes the partition and name information of the shared term with it). Occurrences with disjoint lifetimes do not
+    count: a formula that was popped and is asserted again afterwards is alone on the stack, and the unchanged tree handles that."""
     h = case['hist']
     cmds = h['commands'] if upto is None else h['commands'][:upto + 1]
     levels = [[]]
@@ -156,18 +155,77 @@ def alias_feature(check, ctx, case, upto=None):
         for (name, ref, is_bool, top) in c.get('names', []):
             if not top:
                 add(ref)
-    prelude = prelude_from_decls(h['decls'], defs)
+    # definitions in scope at `upto` (a popped define-fun may have been re-defined: the unscoped list would not even parse)
+    snap = hist.snapshots(h['commands'])[upto] if (upto is not None and upto < len(h['commands'])) else None
+    prelude = prelude_from_decls(h['decls'], snap['defs'] if snap else defs)
+    out = set()
     # all pairs (terms over different symbol sets can still simplify to the same term, e.g. (=> (= u u) b) and b; two valid
     # or two unsatisfiable terms both simplify to the same constant)
-    for (u, t) in pairs[:1500]:
+    for (u, t) in pairs:          # identical text: no query needed, no cap
         if u == t:
-            return True
+            out.update((u, t))
+    budget = 1500
+    for (u, t) in pairs:
+        if u == t or (u in out and t in out):
+            continue
+        budget -= 1
+        if budget < 0:
+            break
         try:
             if ctx.refs.truth(prelude, ['(not (= %s %s))' % (u, t)]) == 'unsat':
-                return True
+                out.update((u, t))
         except RefError:
             continue
-    return False
+    return out, prelude
+
+
+def alias_feature(check, ctx, case, upto=None):
+    """True if two distinct occurrences that were on the assertion stack at the same time denote equivalent terms."""
+    return bool(aliased_refs(check, ctx, case, upto)[0])
+
+
+def alias_explains_core(check, ctx, case, v):
+    """Cause attribution for core violations: True only if the twins can account for *this* violation - the assertion that is
+    missing from the core (or the printed / removable element) is one of the aliased ones. A long history nearly always contains
+    some pair of equivalent assertions; that alone must not file an unrelated defect under the term-identity finding."""
+    i = v['index']
+    al, prelude = aliased_refs(check, ctx, case, i)
+    if not al:
+        return False
+    snap = hist.snapshots(case['hist']['commands'])[i]
+    d = v['detail']
+    cls = v['cls']
+    live = snap['asserts']
+    by_name = {a['name']: a['ref'] for a in live if a['name']}
+    names = {n: e['ref'] for n, e in snap['names'].items()}
+    try:
+        if cls == 'core-satisfiable':
+            core = [by_name[n] for n in d['core'] if n in by_name]
+            unnamed = [a['ref'] for a in live if not a['name']]
+            extra = [a['ref'] for a in live if a['ref'] in al]
+            return bool(extra) and ctx.refs.truth(prelude, core + unnamed + extra) == 'unsat'
+        if cls == 'fullcore-satisfiable':
+            extra = [a['ref'] for a in live if a['ref'] in al]
+            return bool(extra) and ctx.refs.truth(prelude, list(d['core']) + extra) == 'unsat'
+        if cls == 'fullcore-not-an-assertion':
+            return any(ctx.refs.truth(prelude, ['(not (= %s %s))' % (d['formula'], t)]) == 'unsat' for t in sorted(al))
+        if cls in ('core-name-not-live-assertion', 'dead-name-printed'):
+            ref = names.get(d['name']) or next((r for c in case['hist']['commands'][:i] if c['k'] == 'assert' for (n, r, _b, _t) in c.get('names', []) if n == d['name']), None)
+            return ref in al
+        if cls == 'core-reducible':
+            if d.get('removable') not in by_name:
+                return True     # full mode: element is a formula; keep the wide attribution
+            if by_name[d['removable']] in al:
+                return True
+            # OpenSMT takes a term that carries any name (also the name of a nested subterm elsewhere) for a named assertion, so
+            # an unnamed assertion with such a twin is missing from the background of the minimisation: would the element
+            # still be removable against that smaller background?
+            rest = [by_name[n] for n in d['core'] if n != d['removable'] and n in by_name]
+            background = [a['ref'] for a in live if not a['name'] and a['ref'] not in al]
+            return ctx.refs.truth(prelude, rest + background) != 'unsat'
+    except (RefError, KeyError):
+        return True
+    return True
 
 
 def group_simplifies(check, ctx, case, index):
@@ -288,7 +346,7 @@ class C06(ArtifactCheck):
         named_ite = any(c['k'] == 'assert' and not c.get('fault') and '(ite ' in c['ref'] and any(n[3] for n in c.get('names', []))
                         for c in case['hist']['commands'][:v['index']])
         return {'full': opt_on(case['options'], ':print-cores-full'), 'minimal': opt_on(case['options'], ':minimal-unsat-cores'),
-                'alias': alias_feature(self, ctx, case, v['index']), 'named_ite': named_ite}
+                'alias': alias_explains_core(self, ctx, case, v), 'named_ite': named_ite}
 
 
 class C07(C06):
@@ -912,10 +970,21 @@ class C21(HistCheck):
                         # formula of a current assertion (same formula asserted again, under a new name or unnamed) is not a popped
                         # name showing up, so C21 does not forbid it
                         other = snaps[i]['names'].get(n)
-                        if gd and other and any(a['ref'] == other['ref'] for a in snaps[i]['asserts']):
-                            bump(res, 'global-persisting-name-in-core')
-                            continue
-                        res['violations'].append({'cls': 'dead-name-printed', 'sig': {'where': 'get-unsat-core', 'global': gd, 'alias': alias_feature(self, ctx, case, i)},
+                        if gd and other:
+                            same = any(a['ref'] == other['ref'] for a in snaps[i]['asserts'])
+                            if not same:
+                                pl = self.prelude(case, snaps[i])
+                                for a in snaps[i]['asserts']:
+                                    try:
+                                        if ctx.refs.truth(pl, ['(not (= %s %s))' % (a['ref'], other['ref'])]) == 'unsat':
+                                            same = True      # equivalent formulas are one hash-consed term after simplification
+                                            break
+                                    except RefError:
+                                        continue
+                            if same:
+                                bump(res, 'global-persisting-name-in-core')
+                                continue
+                        res['violations'].append({'cls': 'dead-name-printed', 'sig': {'where': 'get-unsat-core', 'global': gd, 'alias': alias_explains_core(self, ctx, case, {'index': i, 'cls': 'dead-name-printed', 'detail': {'name': n}})},
                                                   'detail': {'index': i, 'name': n, 'live': sorted(live)}})
                         return res
             elif c['k'] == 'get-assignment' and last_answer == 'sat' and not has_error(o):
@@ -927,7 +996,7 @@ class C21(HistCheck):
                 bump(res, 'judged:assignment-names')
                 for p in e if isinstance(e, list) else []:
                     if isinstance(p, list) and p and isinstance(p[0], str) and p[0] not in live:
-                        res['violations'].append({'cls': 'dead-name-printed', 'sig': {'where': 'get-assignment', 'global': gd, 'alias': alias_feature(self, ctx, case, i)}, 'detail': {'index': i, 'name': p[0], 'live': sorted(live)}})
+                        res['violations'].append({'cls': 'dead-name-printed', 'sig': {'where': 'get-assignment', 'global': gd, 'alias': alias_explains_core(self, ctx, case, {'index': i, 'cls': 'dead-name-printed', 'detail': {'name': p[0]}})}, 'detail': {'index': i, 'name': p[0], 'live': sorted(live)}})
                         return res
             elif c['k'] == 'get-interpolants' and last_answer == 'unsat' and opt_on(case['options'], ':produce-interpolants'):
                 live = {a['name'] for a in snaps[i]['asserts'] if a['name']}
